@@ -373,6 +373,34 @@ def obligations(run, mir, rp, replay, want=("advance", "invariants", "panic")):
         else:
             e2.prove_each(run, ob, ex, hyp, cl, names, replay("step-advance"), prefer=[small])
             ob.detail += f"; {n_tok} token-producing paths"
+    if "munch" in want:
+        ob = run.ob("scan-loop-maximal-munch", "E2", "an identifier is scanned while the next character is a letter, digit or underscore and a "
+                    "number is never cut short before a digit: the scanning loop is left only at the end of the input or before a character "
+                    "outside that class (so x0, a10, v_2 are single identifiers and 1000 a single number)", ["into_tokens (loop exits)"])
+        cl, n_exit, n_back = [], 0, 0
+        ch = sr.stream.ch
+        digit = lambda c_: z3.And(z3.UGE(c_, 48), z3.ULE(c_, 57))
+        ident = lambda c_: z3.Or(digit(c_), z3.And(z3.UGE(c_, 65), z3.ULE(c_, 90)), z3.And(z3.UGE(c_, 97), z3.ULE(c_, 122)), c_ == 95)
+        for p in sr.ends:
+            kind = loop_of(p)
+            if kind not in ("identifier", "number"):
+                continue
+            consumed = sr._consumed(p.state) - 1        # index into the continuation (the first character is not part of it)
+            if p.kind == "loop_back":
+                n_back += 1
+                at = consumed - 1
+                if kind == "identifier":
+                    cl.append(z3.Implies(conj(p.cond), z3.And(z3.ULT(at, sr.stream.n), ident(ch(at)))))
+            elif p.kind == "return" and isinstance(p.ret, Agg) and p.ret.ty == "Result" and p.ret.variant == "Ok":
+                n_exit += 1
+                at = consumed
+                stop = z3.Or(at == sr.stream.n, z3.Not((ident if kind == "identifier" else digit)(ch(at))))
+                cl.append(z3.Implies(conj(p.cond), stop))
+        if not n_exit or not n_back:
+            ob.inconclusive(f"loop exits {n_exit}, back edges {n_back}")
+        else:
+            e2.prove_each(run, ob, ex, hyp, cl, names, replay("maximal-munch"), prefer=[small])
+            ob.detail += f"; {n_exit} loop exits, {n_back} back edges"
     if "panic" in want:
         pan = [p for p in sr.ends if p.kind == "panic"]
         ob = run.ob("lexer-step-no-panic", "E2", "no overflow, unwrap, slice or cast panic is reachable in one lexer step "
